@@ -490,13 +490,40 @@ func randState(r *hx.Rand, libexec bool, tag byte) string {
 	return "F=" + randArchive(r, tag)
 }
 
+// scratchDir picks the directory for the per-run scratch layouts: a memory
+// file system when one is available and allows executing the worker copy (the
+// cases are dominated by create/unlink calls, which are slow on the journalled,
+// discard-mounted disk under ./out), else <out>/work. Removed at the end.
+func scratchDir(outDir string) string {
+	if os.Getenv("VERIF_SCRATCH_ON_DISK") == "" {
+		if d, err := os.MkdirTemp("/dev/shm", "verif-"+strings.ToLower(filepath.Base(filepath.Dir(outDir)))+"-"); err == nil {
+			probe := filepath.Join(d, "probe")
+			if self, err := os.Executable(); err == nil {
+				if data, err := os.ReadFile(self); err == nil && os.WriteFile(probe, data, 0o755) == nil {
+					cmd := exec.Command(probe)
+					cmd.Env = append(os.Environ(), workerEnv+"=probe")
+					if cmd.Run() == nil {
+						os.Remove(probe)
+						return d
+					}
+				}
+			}
+			os.RemoveAll(d)
+		}
+	}
+	return filepath.Join(outDir, "work")
+}
+
 func main() {
+	if os.Getenv(workerEnv) == "probe" {
+		return
+	}
 	if os.Getenv(workerEnv) != "" {
 		worker()
 		return
 	}
 	hx.Main("C46", func(c *hx.Ctx) {
-		work := filepath.Join(c.Dir, "work")
+		work := scratchDir(c.Dir)
 		os.RemoveAll(work)
 		defer os.RemoveAll(work)
 		// Worker pools: several independent FHS layouts (the work is dominated
